@@ -185,6 +185,10 @@ fn put_mutable_case(vlen: usize, salt_len: Option<usize>, narrow: bool) -> (i32,
     let seq: i64 = kani::any();
     let cas: Option<i64> = if narrow { None } else { kani::any() };
     let v0: u8 = kani::any();
+    // the request may carry the very signature of the stored item (a replay of (seq, sig) around
+    // another value or key), or a different one
+    let same_sig: bool = if narrow { false } else { kani::any() };
+    let req_sig: [u8; 64] = if same_sig { [0x22; 64] } else { [0x88; 64] };
     let from = from_addr();
     let before_other = mut_view(&s, &other);
     let before_target = mut_view(&s, &target);
@@ -198,7 +202,7 @@ fn put_mutable_case(vlen: usize, salt_len: Option<usize>, narrow: bool) -> (i32,
             v: boxed(vlen, v0),
             k: [0x77; 32],
             seq,
-            sig: [0x88; 64],
+            sig: req_sig,
             salt: salt_len.map(|n| boxed(n, 0x5A)),
             cas,
         }),
@@ -238,7 +242,7 @@ fn put_mutable_case(vlen: usize, salt_len: Option<usize>, narrow: bool) -> (i32,
     let after_target = mut_view(&s, &target);
     if accept {
         let want_salt = match salt_len { Some(n) => n + 1, None => 0 };
-        assert!(after_target == (true, seq, 0x77, 0x88, vlen, if vlen == 0 { 0 } else { v0 }, want_salt),
+        assert!(after_target == (true, seq, 0x77, req_sig[0], vlen, if vlen == 0 { 0 } else { v0 }, want_salt),
             "C03/C04: an accepted put stores exactly the item of the request under its target");
         assert!(sizes(&s).0 == before_sizes.0 + if has_prev { 0 } else { 1 });
     } else {
@@ -285,6 +289,7 @@ macro_rules! server_stubs {
 }
 
 server_stubs! {
+unwind 66;
 fn c03_put_mutable_all_verdicts_seq_cas() {
     let (code, has_prev, token_ok) = put_mutable_case(0, None, false);
     kani::cover!(code == 0 && has_prev, "accepted over an existing item");
